@@ -164,8 +164,10 @@ pub fn c11w(ctx: &Ctx, begin: &mut dyn FnMut(J)) -> Outcome {
         // heavy chromosomes (several BufWriter flushes each) of uneven size, the first the largest,
         // so that later chromosomes finish while earlier ones still hold the file
         let nch = c.input.len();
+        // the heaviest chromosome is the first one two times out of three, otherwise a random one
+        let heavy = if r.chance(2, 3) { 0 } else { r.below(nch as u64) as usize };
         for (ci, (ch, vals)) in c.input.iter_mut().enumerate() {
-            let target = if ci == 0 { 3000 } else { r.range(150, 1500) as usize / (1 + (ci % 3)) };
+            let target = if ci == heavy { 3000 } else { r.range(150, 1500) as usize / (1 + (ci % 3)) };
             let need = (target as u32) * 12 + 50;
             ch.size = ch.size.max(need);
             let mut v = vec![];
@@ -196,8 +198,10 @@ pub fn c11w(ctx: &Ctx, begin: &mut dyn FnMut(J)) -> Outcome {
         }
         c.input.sort_by(|a, b| a.0.name.as_bytes().cmp(b.0.name.as_bytes()));
         // heavy chromosomes of uneven size (several BufWriter flushes each), the first the largest
+        let nchb = c.input.len();
+        let heavy = if r.chance(2, 3) { 0 } else { r.below(nchb as u64) as usize };
         for (ci, (ch, ents)) in c.input.iter_mut().enumerate() {
-            let target = if ci == 0 { 1500 } else { r.range(100, 900) as usize / (1 + (ci % 3)) };
+            let target = if ci == heavy { 1500 } else { r.range(100, 900) as usize / (1 + (ci % 3)) };
             ch.size = ch.size.max(target as u32 * 6 + 100);
             let mut v = vec![];
             let mut pos = 0u32;
